@@ -329,10 +329,22 @@ pub(crate) fn spawn_client_impl<T>(
     });
 }
 
-pub(crate) fn spawn_event_callback(event: Arc<ClientEvent>, callback: Arc<ClientEventListenerCallback>) {
-    tokio::spawn(async move {
-        (callback)(event)
+// Listener callbacks run off the client's event loop, but on a single task fed through a channel: events reach a
+// listener in the order the client emitted them (publishes in wire order, lifecycle events in sequence).  A task per
+// event gives no such ordering on a multi-threaded runtime.
+pub(crate) fn new_ordered_callback_spawner(runtime_handle: &Handle) -> CallbackSpawnerFunction {
+    let (event_sender, mut event_receiver) = tokio::sync::mpsc::unbounded_channel::<(Arc<ClientEvent>, Arc<ClientEventListenerCallback>)>();
+
+    runtime_handle.spawn(async move {
+        while let Some((event, callback)) = event_receiver.recv().await {
+            // a panicking listener must not take the remaining events with it
+            let _ = std::panic::catch_unwind(std::panic::AssertUnwindSafe(|| { (callback)(event) }));
+        }
     });
+
+    Box::new(move |event, callback| {
+        let _ = event_sender.send((event, callback));
+    })
 }
 
 type TokioConnectionFactoryReturnType<T> = Pin<Box<dyn Future<Output = GneissResult<T>> + Send>>;
@@ -492,9 +504,7 @@ pub fn new_tokio_client<T>(client_config: MqttClientOptions, connect_config: Con
 where T: AsyncRead + AsyncWrite + Send + Sync + 'static {
     let (operation_sender, internal_state) = create_runtime_states(connection_factory);
 
-    let callback_spawner : CallbackSpawnerFunction = Box::new(|event, callback| {
-        spawn_event_callback(event, callback)
-    });
+    let callback_spawner = new_ordered_callback_spawner(&tokio_options.runtime);
 
     let client_impl = MqttClientImpl::new(client_config, connect_config, callback_spawner);
 
